@@ -179,6 +179,8 @@ pub enum AccOp {
     Clear(u16),
     /// Packet::set_content_format with the i-th named content format
     SetContentFormat(u16),
+    /// header code byte (the typed accessors do not depend on it)
+    Code(u8),
 }
 
 fn ref_decode(width: usize, b: &[u8]) -> Option<u64> {
@@ -223,6 +225,7 @@ pub fn check_accessors(_ctx: &Ctx, ops: &Vec<AccOp>, acc: &mut Acc) -> Result<()
                 let t = crate::refmodel::registry::content_formats();
                 p.set_content_format(t[*i as usize % t.len()].0)
             }
+            AccOp::Code(b) => p.header.code = coap_lite::MessageClass::from(*b),
         });
         if let Err(msg) = r {
             fail!("c06-accessor-panic", "{op:?} panicked: {msg}");
@@ -250,6 +253,7 @@ pub fn check_accessors(_ctx: &Ctx, ops: &Vec<AccOp>, acc: &mut Acc) -> Result<()
                 let t = crate::refmodel::registry::content_formats();
                 model.insert(12, vec![min_uint(t[*i as usize % t.len()].1 as u64)]);
             }
+            AccOp::Code(_) => {}
         }
     }
     let mut nontrivial = false;
@@ -519,6 +523,22 @@ pub fn run(ctx: &Ctx, rep: &mut Report) {
                     b.truncate(k);
                     b
                 }),
+                // long texts with one byte replaced / cut in the middle of a character
+                1 => ("[a-zé€😁]{2,6}", 40usize..400, any::<prop::sample::Index>(), any::<u8>(), any::<bool>()).prop_map(|(unit, reps, i, x, cut)| {
+                    let mut b = unit.repeat(reps).into_bytes();
+                    let k = i.index(b.len());
+                    if cut {
+                        // cut inside the last character
+                        let mut end = b.len() - 1;
+                        while end > 0 && (b[end] & 0xC0) == 0x80 {
+                            end -= 1;
+                        }
+                        b.truncate(end + 1);
+                    } else {
+                        b[k] = x;
+                    }
+                    b
+                }),
                 1 => proptest::collection::vec(any::<u8>(), 0..8),
                 1 => proptest::sample::select(vec![
                     vec![0xC0u8, 0x80], vec![0xED, 0xA0, 0x80], vec![0xF4, 0x90, 0x80, 0x80],
@@ -570,6 +590,7 @@ pub fn run(ctx: &Ctx, rep: &mut Report) {
                     2 => prop_oneof![any::<u32>(), Just(0u32), Just(1), Just(1 << 24)].prop_map(AccOp::SetObserve),
                     1 => num.prop_map(AccOp::Clear),
                     1 => any::<u16>().prop_map(AccOp::SetContentFormat),
+                    1 => proptest::sample::select(vec![0x00u8, 0x01, 0x02, 0x45, 0x44, 0x84, 0xFF]).prop_map(AccOp::Code),
                 ],
                 1..8,
             )
